@@ -66,6 +66,23 @@ func optOf(ctx *parser.ItemContext) parser.IOptContext {
 	return o
 }
 
+// ---- E6 nested kill: body → item → body; a lookup table re-made on every body loses the enclosing body's entries
+var scopeTable = map[string]string{}
+var outerTable = map[string]string{}
+var bodyDepth = 0
+
+func (s *MiniListener) EnterBody(ctx *parser.BodyContext) {
+	bodyDepth++
+	scopeTable = map[string]string{} // bad: also for a nested body
+}
+
+func (s *MiniListener) ExitBody(ctx *parser.BodyContext) {
+	bodyDepth--
+	if bodyDepth == 0 {
+		outerTable = map[string]string{} // ok: only when the outermost body ends
+	}
+}
+
 func (s *MiniListener) EnterOpt(ctx *parser.OptContext) {
 	stuck = true
 }
